@@ -526,6 +526,37 @@ class PrimMixin:
             return a is b
         return isinstance(a, Ref) and isinstance(b, Ref) and a == b
 
+    def p_builtin_shape0(self, args, kw, st, fr, node):
+        h = st.get(args[0]) if isinstance(args[0], Ref) else args[0]
+        return h.n0 if hasattr(h, "n0") else h.n
+
+    def p_builtin_shape1(self, args, kw, st, fr, node):
+        h = st.get(args[0]) if isinstance(args[0], Ref) else args[0]
+        return h.n1
+
+    def nd_searchsorted(self, args, kw, st, fr, node):
+        return self.np_searchsorted(args, kw, st, fr, node)
+
+    def p_builtin_approx(self, args, kw, st, fr, node):
+        """equality over the reals (the run-time evaluator allows floating-point rounding)"""
+        return to_z3(args[0], "real") == to_z3(args[1], "real")
+
+    def p_builtin_psum(self, args, kw, st, fr, node):
+        """psum(w, s, k) = sum of w[s[t]] for t < k : uninterpreted, unfolded one step at every use"""
+        w, s, k = args
+        _, wt = self.arr_term(st, w)
+        _, stt = self.arr_term(st, s)
+        kind = st.get(w).kind
+        f = ufunc("PSUM_" + kind, z3.ArraySort(I, SORTS[kind]), z3.ArraySort(I, I), I, SORTS[kind])
+        k = to_z3(k, "int")
+        zero = to_z3(0, kind)
+        for fact in (f(wt, stt, z3.IntVal(0)) == zero,
+                     z3.Implies(k > 0, f(wt, stt, k) == f(wt, stt, k - 1) + wt[stt[k - 1]])):
+            fact = z3.simplify(fact)
+            if not any(fact.eq(g) for g in st.pc):
+                st.pc.append(fact)
+        return f(wt, stt, k)
+
     def p_builtin_copy_deepcopy(self, args, kw, st, fr, node):
         v = args[0]
         if isinstance(v, tuple) or kind_of(v) in ("int", "real", "bool", "str", "none") or isinstance(v, Opaque):
@@ -1015,7 +1046,12 @@ class PrimMixin:
         if isinstance(h, HArr2):
             raise Unsupported("sum over 2-d array", node)
         n, t = self.arr_term(st, a)
-        return self.sum_term(t, n, h.kind)
+        r = self.sum_term(t, n, h.kind)
+        if h.kind in ("real", "int"):
+            k = fresh("k", I)
+            self.assume(st, z3.Implies(z3.ForAll([k], z3.Implies(z3.And(k >= 0, k < to_z3(n, "int")), z3.simplify(t[k]) >= 0)), r >= 0))
+            self.use("numpy sum: a sum of non-negative cells is non-negative")
+        return r
 
     def np_sum(self, args, kw, st, fr, node):
         return self.nd_sum(args, kw, st, fr, node)
